@@ -433,13 +433,48 @@ type writeServer struct {
 	jobs sync.Map // query id -> *writeJob
 	done chan error
 	next atomic.Uint32
+	gate atomic.Pointer[wgate]
+}
+
+// wgate orders two replies written through the server's (decorated) writer: the first one to arrive, already packed,
+// is held back until the second has been written completely.
+type wgate struct {
+	n          atomic.Int32
+	parked     chan struct{} // closed when the first reply waits at the gate
+	secondDone chan struct{} // closed when the second reply has been written
+	once1      sync.Once
+	once2      sync.Once
+}
+
+func (g *wgate) firstParked() { g.once1.Do(func() { close(g.parked) }) }
+func (g *wgate) secondOut()   { g.once2.Do(func() { close(g.secondDone) }) }
+
+type gateWriter struct {
+	inner dns.Writer
+	ws    *writeServer
+}
+
+func (w gateWriter) Write(p []byte) (int, error) {
+	g := w.ws.gate.Load()
+	if g == nil {
+		return w.inner.Write(p)
+	}
+	if g.n.Add(1) == 1 {
+		g.firstParked()
+		<-g.secondDone
+		return w.inner.Write(p)
+	}
+	n, err := w.inner.Write(p)
+	g.secondOut()
+	return n, err
 }
 
 func newWriteServer() *writeServer {
 	ws := &writeServer{l: memnet.NewListener(), done: make(chan error, 1)}
 	started := make(chan struct{})
 	ws.srv = &dns.Server{Listener: ws.l, Handler: ws, ReadTimeout: time.Hour, IdleTimeout: hour, MaxTCPQueries: -1,
-		NotifyStartedFunc: func() { close(started) }}
+		NotifyStartedFunc: func() { close(started) },
+		DecorateWriter:    func(w dns.Writer) dns.Writer { return gateWriter{w, ws} }}
 	go func() { ws.done <- ws.srv.ActivateAndServe() }()
 	<-started
 	return ws
@@ -538,6 +573,85 @@ func (r *runner) serverWritePair(v *svec) {
 	}
 }
 
+// Two pipelined queries on one connection, answered with WriteMsg from two goroutines of their own (RFC 7766: a server
+// may answer out of order) with distinct replies.  gated: reply A is packed and held at the writer until reply B has
+// been packed and written, then A is written; otherwise the two run freely (what the race detector looks at).
+// Each query must get exactly its own reply, intact.
+func (r *runner) serverWriteMsgPair(v *svec, gated bool) {
+	path := "response.WriteMsg-concurrent"
+	id := uint16(r.wsrv.next.Add(2))
+	job := &writeJob{v: v, pair: true, arrived: make(chan dns.ResponseWriter, 2)}
+	r.wsrv.jobs.Store(id, job)
+	defer r.wsrv.jobs.Delete(id)
+	var want [2][]byte
+	var msgs [2]*dns.Msg
+	for i := 0; i < 2; i++ {
+		m := new(dns.Msg)
+		if err := m.Unpack(body(i, v.Sizes[i])); err != nil {
+			hx.Die("harness message does not unpack: %v", err)
+		}
+		m.Id = id + uint16(i)
+		b, err := m.Pack()
+		if err != nil {
+			hx.Die("harness message does not pack: %v", err)
+		}
+		msgs[i], want[i] = m, b
+	}
+	c, s := memnet.Pipe()
+	r.wsrv.l.DialWith(s)
+	c.Write(frame(query(id)))
+	c.Write(frame(query(id + 1)))
+	w1, w2 := <-job.arrived, <-job.arrived
+	errs := make([]error, 2)
+	var wg sync.WaitGroup
+	if gated {
+		g := &wgate{parked: make(chan struct{}), secondDone: make(chan struct{})}
+		r.wsrv.gate.Store(g)
+		wg.Add(2)
+		go func() {
+			defer wg.Done()
+			errs[0] = w1.WriteMsg(msgs[0])
+			g.firstParked() // had it failed before reaching the writer
+		}()
+		<-g.parked
+		go func() {
+			defer wg.Done()
+			errs[1] = w2.WriteMsg(msgs[1])
+			g.secondOut()
+		}()
+		wg.Wait()
+		r.wsrv.gate.Store(nil)
+	} else {
+		s.Alternate(2)
+		start := make(chan struct{})
+		for i, w := range []dns.ResponseWriter{w1, w2} {
+			wg.Add(1)
+			go func(i int, w dns.ResponseWriter) {
+				defer wg.Done()
+				<-start
+				errs[i] = w.WriteMsg(msgs[i])
+				s.WriterDone()
+			}(i, w)
+		}
+		close(start)
+		wg.Wait()
+	}
+	c.CloseWrite()
+	wire, _ := io.ReadAll(c)
+	c.Close()
+	if errs[0] != nil || errs[1] != nil {
+		r.mis(v, path, "write-failed", fmt.Sprintf("%v / %v", errs[0], errs[1]))
+	}
+	f1, f2 := frame(want[0]), frame(want[1])
+	if !bytes.Equal(wire, append(append([]byte(nil), f1...), f2...)) && !bytes.Equal(wire, append(append([]byte(nil), f2...), f1...)) {
+		how := "freely"
+		if gated {
+			how = "the first held at the writer until the second was out"
+		}
+		r.mis(v, path, "replies-mixed", fmt.Sprintf("two distinct replies (%d and %d octets) written with WriteMsg from two goroutines on one connection (%s): the wire does not hold exactly the two of them", len(want[0]), len(want[1]), how))
+	}
+}
+
 // ------------------------------------------------------------------ one stream vector through every path
 
 func (r *runner) stream(v *svec) {
@@ -584,6 +698,10 @@ func (r *runner) stream(v *svec) {
 		}
 		if len(v.Sizes) == 2 && len(v.ShortW) == 0 && !refusal && len(v.Chunks) <= 3 && want("response.Write-concurrent") {
 			r.serverWritePair(v)
+		}
+		if len(v.Sizes) == 2 && len(v.ShortW) == 0 && !refusal && len(v.Chunks) <= 3 && packable(v) && v.Sizes[0] != v.Sizes[1] && want("response.WriteMsg-concurrent") {
+			r.serverWriteMsgPair(v, true)
+			r.serverWriteMsgPair(v, false)
 		}
 	}
 }
@@ -1010,12 +1128,17 @@ func (r *runner) idKind(v *svec, i int, ka kindAdm, waits bool) {
 	r.judgeID(&w, "socket:"+ka.K, q, m, xerr)
 }
 
+var forcePath string // replay <vectors> <path>: run only that path of every vector
+
 func replay(path string) {
 	var sum hx.Summary
 	r := &runner{sum: &sum, rsrv: newReadServer(), wsrv: newWriteServer(), paths: map[string]int{}}
 	seen := map[string]bool{}
 	go r.watchdog()
 	hx.ReadNDJSON(path, func(i int, v *svec) {
+		if forcePath != "" {
+			v.Path = forcePath
+		}
 		switch v.Kind {
 		case "stream":
 			seen[fmt.Sprint(v.Sizes, v.Chunks, v.EOF, v.ShortW)] = true
@@ -1346,6 +1469,27 @@ func (h *exHandler) ServeDNS(w dns.ResponseWriter, m *dns.Msg) {
 	w.WriteMsg(r)
 }
 
+// Datagrams that never reach a handler, one of each kind in turn: every path of the server that lets go of a receive
+// buffer without calling the handler.  They are sent from sockets of their own (client number 0 in the events) before
+// and between the valid requests.
+func junk(k int) []byte {
+	id := 50000 + k
+	hdr := func(flags byte, qd int) []byte {
+		return []byte{byte(id >> 8), byte(id), flags, 0, 0, byte(qd), 0, 0, 0, 0, 0, 0}
+	}
+	switch k % 5 {
+	case 0: // accepted header, undecodable body (a label of a reserved type): invalid callback + FORMERR
+		return append(hdr(0x01, 1), 0x80, 0xff, 0xff, 0, 1, 0, 1)
+	case 1: // two questions announced: refused by the policy with FORMERR
+		return hdr(0x01, 2)
+	case 2: // opcode UPDATE: NOTIMP
+		return append(hdr(0x28, 1), 0, 0, 6, 0, 1)
+	case 3: // a response: ignored
+		return append(hdr(0x80, 1), 0, 0, 1, 0, 1)
+	}
+	return hdr(0, 0)[:5] // shorter than a header
+}
+
 // A client of the wildcard-socket server: an unconnected socket, so that a reply is seen whatever address it comes
 // from; every exchange goes to another of the server's local addresses.
 func multiClient(h *exHandler, lg *logger, c, R, port int, locals []net.IP, lost, answered *atomic.Int64, begin chan struct{}) {
@@ -1355,6 +1499,12 @@ func multiClient(h *exHandler, lg *logger, c, R, port int, locals []net.IP, lost
 	}
 	defer sock.Close()
 	h.addrs.Store(sock.LocalAddr().(*net.UDPAddr).Port, c)
+	noise, err := net.ListenUDP("udp4", &net.UDPAddr{IP: net.IPv4zero})
+	if err != nil {
+		hx.Die("noise socket: %v", err)
+	}
+	defer noise.Close()
+	h.addrs.Store(noise.LocalAddr().(*net.UDPAddr).Port, 0)
 	<-begin
 	buf := make([]byte, 4096)
 	for round := 0; round < R; round++ {
@@ -1365,6 +1515,7 @@ func multiClient(h *exHandler, lg *logger, c, R, port int, locals []net.IP, lost
 		}
 		di := (c + round) % len(locals)
 		dst := &net.UDPAddr{IP: locals[di], Port: port}
+		noise.WriteToUDP(junk(c+round), dst)
 		ok := false
 		for try := 0; try < 4 && !ok; try++ {
 			lg.emit(xEvent{Ev: "send", Tr: h.tr, C: c, Round: round, Try: try, Req: fieldsOf(req), Wire: hx.FromBytes(wire), Dst: di + 1})
@@ -1509,8 +1660,28 @@ func record(tr, out string, N, R int) {
 			h.addrs.Store(conn.LocalAddr().String(), c)
 			co := &dns.Conn{Conn: conn}
 			defer co.Close()
+			// datagram transports: a second socket for the datagrams that never reach a handler
+			var noise net.Conn
+			switch tr {
+			case "udp":
+				if noise, err = net.Dial("udp", addr); err != nil {
+					hx.Die("dial: %v", err)
+				}
+			case "pc":
+				noise = pc.Client(fmt.Sprintf("n%d", c))
+			}
+			if noise != nil {
+				h.addrs.Store(noise.LocalAddr().String(), 0)
+				defer noise.Close()
+			}
 			<-begin
 			for round := 0; round < R; round++ {
+				if noise != nil {
+					noise.Write(junk(c + round))
+					if round%2 == 1 {
+						noise.Write(junk(c + round + 2))
+					}
+				}
 				req := mkRequest(c, round)
 				wire, err := req.Pack()
 				if err != nil || len(wire) != reqBase+padLen(c, round) {
@@ -1552,6 +1723,9 @@ func main() {
 	}
 	switch os.Args[1] {
 	case "replay":
+		if len(os.Args) > 3 {
+			forcePath = os.Args[3]
+		}
 		replay(os.Args[2])
 	case "record":
 		if len(os.Args) < 6 {
